@@ -9,6 +9,7 @@ import SonicModel.Lemmas.StrictLazy
 import SonicModel.Lemmas.DomParseProof
 import SonicModel.Lemmas.NumSkipProof
 import SonicModel.Lemmas.StrBlockProof
+import SonicModel.Lemmas.SpaceProof
 namespace Sonic.Thm.C02
 open Sonic Gen
 
@@ -88,6 +89,39 @@ theorem decoding_parser_accepts_wellformed (buf : Buf) (s e : Nat) (h : Spec.doc
     (DomP.document buf).isSome := by
   obtain ⟨t, _, ht⟩ := DomP.document_of_strict buf s e h
   rw [ht]; rfl
+
+/-- the bytewise scan of `Space` is the scalar `skip_space` every other model uses -/
+theorem bytewise_is_scalar_skip_space (buf : Buf) (i : Nat) :
+    Impl.skipSpace buf i = (match Space.bytewise buf i with | (some c, j) => some (c, j) | (none, _) => none) := by
+  unfold Impl.skipSpace
+  by_cases h : skipWs buf i < buf.size
+  · have hb : buf[skipWs buf i]? = some buf[skipWs buf i] := by simp [h]
+    simp [h, Space.bytewise_some buf i _ hb]
+  · have hb : buf[skipWs buf i]? = none := by simp; omega
+    simp [h, Space.bytewise_none buf i hb]
+
+/-- **`skip_space` with its cached whitespace bitmap is the bytewise scan** (Impl/Space.lean: two bytewise tries, the cached
+    64-byte window with the lanes below the reader masked off, the block loop that sets a new window, the bytewise tail):
+    from every state whose cache is right it returns the first non-blank byte at or after the reader, stops just behind it, and
+    leaves a cache that is right for the byte it found -/
+theorem skip_space_cache_is_bytewise_scan (buf : Buf) (st : Space.St) (h : Space.Inv buf st) :
+    (Space.skipSpace buf st).1 = (Space.bytewise buf st.idx).1 ∧
+    (Space.skipSpace buf st).2.idx = (Space.bytewise buf st.idx).2 ∧ Space.Inv buf (Space.skipSpace buf st).2 := by
+  obtain ⟨h1, h2, _⟩ := Space.skipSpace_spec buf st h
+  exact ⟨h1, h2, Space.inv_skipSpace buf st h⟩
+
+/-- **… in every history**: whatever sequence of `skip_space`, `skip_space_peek` and reader advances led to a state, the cache
+    is right there, so the next `skip_space` answers as the bytewise scan does (the buffer is not changed meanwhile: the
+    in-place decoder of the whole-input DOM parse rewrites only bytes inside string literals the reader has passed) -/
+theorem skip_space_cache_right_in_every_history (buf : Buf) (ops : List Space.Op) :
+    Space.Inv buf (ops.foldl (Space.step buf) Space.init) ∧
+    (Space.skipSpace buf (ops.foldl (Space.step buf) Space.init)).1 = (Space.bytewise buf (ops.foldl (Space.step buf) Space.init).idx).1 :=
+  ⟨Space.inv_reachable buf ops, (Space.skipSpace_after_any_history buf ops).1⟩
+
+/-- non-vacuity: 70 blanks, `x`, 70 blanks, `y`; skip, eat 3, peek, skip: the window cached at 66 is consulted again (and found exhausted) by the later calls -/
+def spaceEx : Buf := (List.replicate 70 (32 : UInt8) ++ [120] ++ List.replicate 70 32 ++ [121]).toArray
+example : ([Space.Op.skip, .eat 3, .peek, .skip].foldl (Space.step spaceEx) Space.init) = { idx := 142, bits := 16, start := 66 } := by
+  decide +kernel
 
 /-- **the checked `skip_string` with its 32-byte blocks is the scalar `skip_string`** (the mask of backslash, quote and control
     lanes, its first set lane, `skip_escaped_chars` after a backslash, the bytewise loop over the last bytes): it always
